@@ -257,8 +257,13 @@ Proof.
     destruct (Req_dec t 0) as [->|]; [|lra]. exfalso. apply Hc. lra.
 Qed.
 Theorem solve_sound a hb c t :
-  (min_a_R <= Rabs a \/ (a = 0 /\ c <> 0)) ->
+  (min_a_R <= Rabs a \/ a = 0) ->
   In (Some t) (isect2_list (solve_general (T:=R) a hb c false)) -> 0 < t /\ qpoly a hb c t = 0.
+Proof. intros H. apply solve_sound_gen. destruct H as [H|H]; auto. Qed.
+(** before the repair 8462ce5 (`< 0`) the start point had to be off the surface *)
+Theorem solve_sound_before_repair a hb c t :
+  (min_a_R <= Rabs a \/ (a = 0 /\ c <> 0)) ->
+  In (Some t) (isect2_list (solve_general_gen (T:=R) false a hb c false)) -> 0 < t /\ qpoly a hb c t = 0.
 Proof. intros H. apply solve_sound_gen. destruct H as [H|[H1 H2]]; auto. Qed.
 (** with the repaired comparison no side condition on c is needed *)
 Theorem solve_sound_repaired a hb c t :
